@@ -89,14 +89,17 @@ def signature(case, out):
         tail = "->".join(out["chain"][-4:-2]) if len(out["chain"]) >= 4 else "->".join(out["chain"])
         what = "no fault" if not f else "%s answered with %s" % (f[0].upper(), "a short count" if f[0].startswith("short") else "status " + ("EOF" if f[2] == 1 else "error"))
         return "hang: %s (%s) blocked in %s with every request answered, after %s" % (fam, opts(case), tail, what)
+    if not f and case.get("source"):
+        return ("putfo (%s): source whose read() returns short counts before its end is not copied completely "
+                "(destination is %s)" % (opts(case), "a prefix of the source" if out.get("dest_is_prefix") else "different"))
     if not f:
         return "%s (%s): fault-free transfer returns but destination != source" % (fam, opts(case))
     if f[0] == "write":
-        how = ("its status was read but raised nothing" if out.get("fault_status_examined")
+        how = ("its status was read but raised nothing" if out.get("write_status_examined", out.get("fault_status_examined"))
                else "its status is discarded unread")
         if out.get("close_plan", "ok") != "ok":
             how += "; " + plan_class(out["close_plan"])
-        if case.get("sync") and not out.get("fault_status_examined") and out.get("sync_before_rejected_write") is False:
+        if case.get("sync") and not out.get("write_status_examined", out.get("fault_status_examined")) and out.get("sync_before_rejected_write") is False:
             how = "its status was taken off the wire by an interleaved synchronous request and never examined"
         if fam == "put/putfo":
             if case["confirm"]:
@@ -297,6 +300,33 @@ def run(ctx):
                 break
         else:
             ctx.count("exhaustive_window_complete")
+        # ---- putfo() from a local source that returns short reads before its end (no server fault) ----
+        if ctx.quick:
+            ssizes = [2, 40000, 70000, 100000, 131072 + ctx.seed % 977]
+        else:
+            ssizes = [2, 3000, 32767, 32768, 32769, 65536, 100000, 200000, 327680, 1048576, 40000 + ctx.seed % 9973]
+        j = 0
+        for size in ssizes:
+            for pattern in X.SOURCE_PATTERNS:
+                for confirm in (True, False):
+                    for cb in (False, True):
+                        j += 1
+                        if not ctx.mine(j) or time.time() > end:
+                            continue
+                        case = dict(op="putfo", size=size, cseed=5000 + j + ctx.seed, confirm=confirm, callback=cb,
+                                    source=pattern, fault=None)
+                        o = X.run_case(case, root)
+                        if o["status"] == "ok" and not o.get("source_short_reads"):
+                            ctx.case(case, nontrivial=False)
+                            ctx.count("source_pattern_not_short")
+                            judge(ctx, case, o)
+                            continue
+                        ctx.case(case, sample=dict(case, observed={x: o.get(x) for x in ("outcome", "exact", "source_short_reads", "writes")})
+                                 if pattern == "boundary" and size == 100000 and len(ctx.samples) < 6 else None)
+                        ctx.count("short_source_cells")
+                        ctx.count("short_source_cells_" + pattern)
+                        ctx.count("source_short_reads_returned", o.get("source_short_reads", 0))
+                        judge(ctx, case, o)
     finally:
         shutil.rmtree(root, ignore_errors=True)
     ctx.require("shapes", ctx.pick(60, 200))
@@ -310,6 +340,10 @@ def run(ctx):
     ctx.require("rejected_write_outcomes_checked", ctx.pick(600, 6000))
     for pl in ("status:4", "status:1", "drop_at_close", "drop_before_close"):
         ctx.require("cells_" + plan_class(pl).replace(" ", "_"), ctx.pick(60, 500))
+    ctx.require("short_source_cells", ctx.pick(60, 150))
+    ctx.require("source_short_reads_returned", ctx.pick(500, 3000))
+    for pt in X.SOURCE_PATTERNS:
+        ctx.require("short_source_cells_" + pt, ctx.pick(8, 20))
     ctx.require("sync_between_writes_cells", ctx.pick(400, 4000))
     ctx.require("sync_before_rejected_write_cells", ctx.pick(250, 2500))
     ctx.require("sync_after_rejected_write_cells", ctx.pick(80, 1200))
